@@ -743,3 +743,71 @@ M('c13e-ipv6-port-text-window-differs', 'C13', 'break', UT,
   '                *port = bstr_dup_mem(data + pos + 1, len - pos - 1);', '                *port = bstr_dup_mem(data + pos, len - pos);', 'C13.e')
 M('c19g-destroy-inferred-from-pointers', 'C19', 'break', TX,
   '    if (tx->is_config_shared == HTP_CONFIG_PRIVATE) {\n        htp_config_destroy(tx->cfg);\n    }\n\n    free(tx);', '    if (tx->cfg != tx->connp->cfg) {\n        htp_config_destroy(tx->cfg);\n    }\n\n    free(tx);', 'C19.g')
+
+# ---------------- co-updated fields (C06.h, C07.k, C02.g)
+M('c06h-stream-offset-not-advanced', 'C06', 'break', RQ,
+  '    connp->in_current_consume_offset += bytes_to_consume;\n    connp->in_stream_offset += bytes_to_consume;\n    connp->in_tx->request_message_len += bytes_to_consume;\n    connp->in_chunked_length -= bytes_to_consume;',
+  '    connp->in_current_consume_offset += bytes_to_consume;\n    connp->in_tx->request_message_len += bytes_to_consume;\n    connp->in_chunked_length -= bytes_to_consume;', 'C06.h')
+M('c06h-res-stream-offset-moved-out-of-branch', 'C06', 'break', RS,
+  '        connp->out_stream_offset += bytes_to_consume;        \n    }\n',
+  '    }\n    connp->out_stream_offset += 1;\n', 'C06.h')
+M('c06h-order-swapped-keep', 'C06', 'keep', RQ,
+  '    connp->in_current_consume_offset += bytes_to_consume;\n    connp->in_stream_offset += bytes_to_consume;\n    connp->in_tx->request_message_len += bytes_to_consume;\n    connp->in_chunked_length -= bytes_to_consume;',
+  '    connp->in_stream_offset += bytes_to_consume;\n    connp->in_current_consume_offset += bytes_to_consume;\n    connp->in_tx->request_message_len += bytes_to_consume;\n    connp->in_chunked_length -= bytes_to_consume;')
+M('c07k-next-out-not-reset', 'C07', 'break', 'htp/htp_decompressors.c',
+  '            drec->stream.avail_out = GZIP_BUF_SIZE;\n            drec->stream.next_out = drec->buffer;\n            // TODO Handle trailer.',
+  '            drec->stream.avail_out = GZIP_BUF_SIZE;\n            // TODO Handle trailer.', 'C07.k')
+M('c07k-order-swapped-keep', 'C07', 'keep', 'htp/htp_decompressors.c',
+  '            drec->stream.avail_out = GZIP_BUF_SIZE;\n            drec->stream.next_out = drec->buffer;\n            // TODO Handle trailer.',
+  '            drec->stream.next_out = drec->buffer;\n            drec->stream.avail_out = GZIP_BUF_SIZE;\n            // TODO Handle trailer.')
+M('c02g-personality-leaves-response-line-parser-unset', 'C02', 'break', 'htp/htp_config.c',
+  '        case HTP_SERVER_GENERIC:\n            cfg->parse_request_line = htp_parse_request_line_generic;\n            cfg->process_request_header = htp_process_request_header_generic;\n            cfg->parse_response_line = htp_parse_response_line_generic;\n',
+  '        case HTP_SERVER_GENERIC:\n            cfg->parse_request_line = htp_parse_request_line_generic;\n            cfg->process_request_header = htp_process_request_header_generic;\n', 'C02.g')
+
+# ---------------- C01.m a caller's bytes are not kept
+M('c01m-builder-piece-wraps-caller-memory', 'C01', 'break', 'htp/bstr_builder.c',
+  '    bstr *b = bstr_dup_mem(data, len);\n    if (b == NULL) return HTP_ERROR;\n    return htp_list_push(bb->pieces, b);',
+  '    bstr *b = bstr_wrap_mem(data, len);\n    if (b == NULL) return HTP_ERROR;\n    return htp_list_push(bb->pieces, b);', 'C01.m')
+M('c01m-request-line-wraps-current-chunk', 'C01', 'break', RQ,
+  '    connp->in_tx->request_line = bstr_dup_mem(data, len);', '    connp->in_tx->request_line = bstr_wrap_mem(data, len);', 'C01.m')
+M('c01m-res-header-stash-wraps-chunk', 'C01', 'break', RS,
+  '                    connp->out_header = bstr_dup_mem(data, len);', '                    connp->out_header = bstr_wrap_mem(data, len);', 'C01.m')
+M('c01m-temporary-wrap-freed-keep', 'C01', 'keep', RQ,
+  '    bstr *method = bstr_dup_mem(data + mstart, pos - mstart);\n    if (method) {\n        methodi = htp_convert_method_to_number(method);\n        bstr_free(method);',
+  '    bstr *method = bstr_wrap_mem(data + mstart, pos - mstart);\n    if (method) {\n        methodi = htp_convert_method_to_number(method);\n        bstr_free(method);')
+
+# ---------------- C14.h (set-aside CR at end of stream), C14.i (type decided => data mode)
+M('c14h-aside-cr-released-only-with-pieces', 'C14', 'break', 'htp/htp_multipart.c',
+  '    if (parser->current_part != NULL) {\n        // Process buffered data, if any.\n        htp_martp_process_aside(parser, 0);\n',
+  '    if (parser->current_part != NULL) {\n        // Process buffered data, if any.\n        if (bstr_builder_size(parser->boundary_pieces) > 0) htp_martp_process_aside(parser, 0);\n', 'C14.h')
+M('c14h-aside-tested-explicitly-keep', 'C14', 'keep', 'htp/htp_multipart.c',
+  '    if (parser->current_part != NULL) {\n        // Process buffered data, if any.\n        htp_martp_process_aside(parser, 0);\n',
+  '    if (parser->current_part != NULL) {\n        // Process buffered data, if any.\n        if (parser->cr_aside != 0) htp_martp_process_aside(parser, 0); else if (bstr_builder_size(parser->boundary_pieces) > 0) htp_martp_process_aside(parser, 0);\n')
+M('c14i-mode-switch-after-extraction-block', 'C14', 'break', 'htp/htp_multipart.c', None, None, 'C14.i',
+  edits=[('htp/htp_multipart.c', '                part->parser->current_part_mode = MODE_DATA;\n                bstr_builder_clear(part->parser->part_header_pieces);\n\n                if (part->file != NULL) {',
+          '                bstr_builder_clear(part->parser->part_header_pieces);\n\n                if (part->file != NULL) {'),
+         ('htp/htp_multipart.c', '                } else {\n                    // Do nothing; the type stays MULTIPART_PART_UNKNOWN.\n                }\n',
+          '                } else {\n                    // Do nothing; the type stays MULTIPART_PART_UNKNOWN.\n                }\n                part->parser->current_part_mode = MODE_DATA;\n')])
+M('c14i-mode-switch-before-headers-keep', 'C14', 'keep', 'htp/htp_multipart.c',
+  '                part->parser->current_part_mode = MODE_DATA;\n                bstr_builder_clear(part->parser->part_header_pieces);\n\n                if (part->file != NULL) {',
+  '                bstr_builder_clear(part->parser->part_header_pieces);\n                part->parser->current_part_mode = MODE_DATA;\n\n                if (part->file != NULL) {')
+
+# ---------------- C18.e / C18.f
+M('c18e-callee-also-releases-boundary', 'C18', 'break', 'htp/htp_multipart.c',
+  '    if (rc != HTP_OK) {\n        htp_mpartp_destroy(parser);\n        return NULL;\n    }',
+  '    if (rc != HTP_OK) {\n        bstr_free(boundary);\n        htp_mpartp_destroy(parser);\n        return NULL;\n    }', 'C18.e')
+M('c18f-d32-size-recorded-before-realloc', 'C18', 'break', 'htp/lzma/LzmaDec.c',
+  '          Byte *tmp = realloc(p->dic, newSize);\n          if (!tmp) {\n            return SZ_ERROR_MEM;\n          }\n          p->dic = tmp;\n          p->dicBufSize = newSize;',
+  '          p->dicBufSize = newSize;\n          Byte *tmp = realloc(p->dic, p->dicBufSize);\n          if (!tmp) {\n            return SZ_ERROR_MEM;\n          }\n          p->dic = tmp;', 'C18.f')
+M('c18f-size-written-back-on-failure-keep', 'C18', 'keep', 'htp/lzma/LzmaDec.c',
+  '          Byte *tmp = realloc(p->dic, newSize);\n          if (!tmp) {\n            return SZ_ERROR_MEM;\n          }\n          p->dic = tmp;\n          p->dicBufSize = newSize;',
+  '          SizeT oldSize = p->dicBufSize;\n          p->dicBufSize = newSize;\n          Byte *tmp = realloc(p->dic, p->dicBufSize);\n          if (!tmp) {\n            p->dicBufSize = oldSize;\n            return SZ_ERROR_MEM;\n          }\n          p->dic = tmp;')
+M('c18f-in-buf-size-before-realloc', 'C18', 'break', RQ,
+  '        size_t newsize = connp->in_buf_size + len;\n        unsigned char *newbuf = realloc(connp->in_buf, newsize);\n        if (newbuf == NULL) return HTP_ERROR;\n        connp->in_buf = newbuf;\n        memcpy(connp->in_buf + connp->in_buf_size, data, len);\n        connp->in_buf_size = newsize;',
+  '        size_t newsize = connp->in_buf_size + len;\n        size_t oldsize = connp->in_buf_size;\n        connp->in_buf_size = newsize;\n        unsigned char *newbuf = realloc(connp->in_buf, connp->in_buf_size);\n        if (newbuf == NULL) return HTP_ERROR;\n        connp->in_buf = newbuf;\n        memcpy(connp->in_buf + oldsize, data, len);', 'C18.f')
+M('c18g-step-marked-before-allocate', 'C18', 'break', 'htp/htp_decompressors.c',
+  '                rc = LzmaDec_Allocate(&drec->state, drec->header, LZMA_PROPS_SIZE, &lzma_Alloc);\n                if (rc != SZ_OK)\n                    return rc;\n                LzmaDec_Init(&drec->state);\n                // hacky to get to next step end retry allocate in case of failure\n                drec->header_len++;',
+  '                drec->header_len++;\n                rc = LzmaDec_Allocate(&drec->state, drec->header, LZMA_PROPS_SIZE, &lzma_Alloc);\n                if (rc != SZ_OK)\n                    return rc;\n                LzmaDec_Init(&drec->state);', 'C18.g')
+M('c18g-success-test-respelled-keep', 'C18', 'keep', 'htp/htp_decompressors.c',
+  '                rc = LzmaDec_Allocate(&drec->state, drec->header, LZMA_PROPS_SIZE, &lzma_Alloc);\n                if (rc != SZ_OK)\n                    return rc;\n                LzmaDec_Init(&drec->state);',
+  '                rc = LzmaDec_Allocate(&drec->state, drec->header, LZMA_PROPS_SIZE, &lzma_Alloc);\n                if (!(rc == SZ_OK)) {\n                    return rc;\n                }\n                LzmaDec_Init(&drec->state);')
